@@ -78,6 +78,7 @@ var patLists = []patList{
 	{"dir-slash", []string{"$R/safe/"}},
 	{"other-case", []string{"$R/SAFE/*", "$R/safe/A.TXT", "$R/Unsafe/e.txt"}},
 	{"star-suffix", []string{"$R/safe/*b.txt"}},
+	{"two-reversed", []string{"$R/unsafe/e.txt", "$R/safe/sub/*"}},
 }
 
 // The *_stored entries are refreshes of a list that already has contents on
@@ -859,7 +860,7 @@ func main() {
 				"http_requests_attempted":             m.Counters["http_requests_attempted"],
 				"pattern_lists":                       len(patLists),
 				"entry_points":                        entries,
-				"rule":                                "13 pattern lists (empty, dir/*b.txt, patterns differing from the tree only in letter case, exact, dir/*, dir/?.txt, dir/[ab].txt, */a.txt, two patterns, root/*/a.txt, directory itself, *, dir/) x locations x 8 entry points (add_url, add_url after the list safe/a.txt has been added on the same instance, set_url, set_url disabled-then-enabled, forced refresh handler, periodic refresh tick — the last two with the location already in the configuration, each also with contents of the list already stored from an earlier fetch) x block/allow registry. Locations: 13 targets (10 canary files in safe dir, its sub-directory, unsafe dir, tree root, look-alike 'safe-evil' dir; a missing file; two directories) x dot-dot routes (direct, via safe/, safe/sub/, a FILE safe/a.txt/, unsafe/, safe-evil/, overshoot above /) x departures: segment insertion (/./, //, /x/../), percent-encoding (last separator, dots, first letter), suffix (/, /., //, /x/.., ?x=1), prefix (relative to cwd=safe dir, ./relative, file://, FILE://, file:, file://localhost, ftp://, ftp://host, unix://, http://closed-port, https://, http://, leading space) + 18 stand-alone spellings (empty, NUL bytes, backslashes, ~). non-trivial = case in which a canary file was legitimately read, or a spelling aimed at an existing canary file had to be refused",
+				"rule":                                "14 pattern lists (empty, dir/*b.txt, an exact path followed by a glob of another directory, patterns differing from the tree only in letter case, exact, dir/*, dir/?.txt, dir/[ab].txt, */a.txt, two patterns, root/*/a.txt, directory itself, *, dir/) x locations x 8 entry points (add_url, add_url after the list safe/a.txt has been added on the same instance, set_url, set_url disabled-then-enabled, forced refresh handler, periodic refresh tick — the last two with the location already in the configuration, each also with contents of the list already stored from an earlier fetch) x block/allow registry. Locations: 13 targets (10 canary files in safe dir, its sub-directory, unsafe dir, tree root, look-alike 'safe-evil' dir; a missing file; two directories) x dot-dot routes (direct, via safe/, safe/sub/, a FILE safe/a.txt/, unsafe/, safe-evil/, overshoot above /) x departures: segment insertion (/./, //, /x/../), percent-encoding (last separator, dots, first letter), suffix (/, /., //, /x/.., ?x=1), prefix (relative to cwd=safe dir, ./relative, file://, FILE://, file:, file://localhost, ftp://, ftp://host, unix://, http://closed-port, https://, http://, leading space) + 18 stand-alone spellings (empty, NUL bytes, backslashes, ~). non-trivial = case in which a canary file was legitimately read, or a spelling aimed at an existing canary file had to be refused",
 			}
 		},
 		Assumptions: []string{
